@@ -1,4 +1,5 @@
 import WfProofs.PolicyLemmas
+import WfProofs.RpTreeLemmas
 /-!
 # C07 — retry building blocks obey their algebra and bounds
 
@@ -9,7 +10,7 @@ overflow / rounding of the float implementation — is exercised on the implemen
 the check's extreme stream (huge attempt counts and bases).
 -/
 set_option linter.unusedVariables false
-open Policy Gen.RP
+open Policy Gen.RP Gen.RPC
 
 /-- the source still has the shape the hand-written parts transcribe: operator sugar,
 `wait_chain`'s index, the composed `next`, and how the control loop calls it -/
@@ -141,3 +142,300 @@ example : waitChain [waitFixed 1, waitFixed 2, waitFixed 5] 7 0 = 5 := by simp [
 example : waitCombine [waitFixed 1, waitRandom 0 1] 0 (1/4) = 5/4 := by
   simp [waitCombine, waitFixed, waitRandom]; grind
 example : (0:Rat) ≤ 1/2 ∧ (1/2:Rat) ≤ 1 := by grind
+
+/-! ## nested combinators (every tree of `retry_any`/`retry_all`, `stop_any`/`stop_all`, `wait_chain`/`wait_combine`) -/
+
+/-- a tree of `retry_any` / `retry_all` (named or `|` / `&`, any depth, any arity) is the Boolean formula of its leaves -/
+theorem C07_retry_tree_is_formula (t : RCTree) (e : Nat) : t.eval e = true ↔ t.Holds e :=
+  RCTree.eval_iff_holds t e
+
+/-- the same for `stop_any` / `stop_all` trees -/
+theorem C07_stop_tree_is_formula (t : RSTree) (a : Nat) (el up : Rat) : t.eval a el up = true ↔ t.Holds a el up :=
+  RSTree.eval_iff_holds t a el up
+
+/-- operands of the same kind flatten, in any position: `retry_any(*xs, retry_any(*ys), *zs)` is
+`retry_any(*xs, *ys, *zs)`; likewise `retry_all`, `stop_any`, `stop_all`, and `wait_combine` (sum) -/
+theorem C07_flatten (xs ys zs : List Cond) (sx sy sz : List Stop) (wx wy wz : List Wait) (e a : Nat) (el up u : Rat) :
+    retryAny (xs ++ retryAny ys :: zs) e = retryAny (xs ++ ys ++ zs) e ∧
+    retryAll (xs ++ retryAll ys :: zs) e = retryAll (xs ++ ys ++ zs) e ∧
+    stopAny (sx ++ stopAny sy :: sz) a el up = stopAny (sx ++ sy ++ sz) a el up ∧
+    stopAll (sx ++ stopAll sy :: sz) a el up = stopAll (sx ++ sy ++ sz) a el up ∧
+    waitCombine (wx ++ waitCombine wy :: wz) a u = waitCombine (wx ++ wy ++ wz) a u := by
+  refine ⟨?_, ?_, ?_, ?_, ?_⟩
+  · simp [retryAny, List.any_append, Bool.or_assoc]
+  · simp [retryAll, List.all_append, Bool.and_assoc]
+  · simp [stopAny, List.any_append, Bool.or_assoc]
+  · simp [stopAll, List.all_append, Bool.and_assoc]
+  · simp only [waitCombine_eq_ratSum, List.map_append, List.map_cons, ratSum_append, ratSum_cons]; grind
+
+/-- operator chains as Python parses them, `((a | b) | c) | …`, `&`, `+`: the n-ary combinator of all operands -/
+theorem C07_operator_chains (a : Cond) (cs : List Cond) (s : Stop) (ss : List Stop) (w : Wait) (ws : List Wait)
+    (e k : Nat) (el up u : Rat) :
+    orChain a cs e = retryAny (a :: cs) e ∧ andChain a cs e = retryAll (a :: cs) e ∧
+    stopOrChain s ss k el up = stopAny (s :: ss) k el up ∧ stopAndChain s ss k el up = stopAll (s :: ss) k el up ∧
+    plusChain w ws k u = waitCombine (w :: ws) k u := by
+  refine ⟨?_, ?_, ?_, ?_, ?_⟩
+  · induction cs generalizing a with
+    | nil => simp [orChain, retryAny]
+    | cons c cs ih => rw [show orChain a (c :: cs) = orChain (retryAny [a, c]) cs from rfl, ih]; simp [retryAny, Bool.or_assoc]
+  · induction cs generalizing a with
+    | nil => simp [andChain, retryAll]
+    | cons c cs ih => rw [show andChain a (c :: cs) = andChain (retryAll [a, c]) cs from rfl, ih]; simp [retryAll, Bool.and_assoc]
+  · induction ss generalizing s with
+    | nil => simp [stopOrChain, stopAny]
+    | cons c cs ih => rw [show stopOrChain s (c :: cs) = stopOrChain (stopAny [s, c]) cs from rfl, ih]; simp [stopAny, Bool.or_assoc]
+  · induction ss generalizing s with
+    | nil => simp [stopAndChain, stopAll]
+    | cons c cs ih => rw [show stopAndChain s (c :: cs) = stopAndChain (stopAll [s, c]) cs from rfl, ih]; simp [stopAll, Bool.and_assoc]
+  · induction ws generalizing w with
+    | nil => simp only [plusChain, List.foldl_nil, waitCombine_eq_ratSum, List.map_cons, List.map_nil, ratSum_cons, ratSum_nil]; grind
+    | cons c cs ih =>
+      rw [show plusChain w (c :: cs) = plusChain (waitCombine [w, c]) cs from rfl, ih]
+      simp only [waitCombine_eq_ratSum, List.map_cons, List.map_nil, ratSum_cons, ratSum_nil]; grind
+
+/-- the order of the operands does not matter (or / and / sum are commutative) -/
+theorem C07_operand_order_irrelevant (xs ys : List Cond) (sx sy : List Stop) (wx wy : List Wait)
+    (hc : xs.Perm ys) (hs : sx.Perm sy) (hw : wx.Perm wy) (e a : Nat) (el up u : Rat) :
+    retryAny xs e = retryAny ys e ∧ retryAll xs e = retryAll ys e ∧
+    stopAny sx a el up = stopAny sy a el up ∧ stopAll sx a el up = stopAll sy a el up ∧
+    waitCombine wx a u = waitCombine wy a u := by
+  refine ⟨?_, ?_, ?_, ?_, ?_⟩
+  · rw [Bool.eq_iff_iff, C07_retry_any_is_or, C07_retry_any_is_or]
+    exact ⟨fun ⟨r, hr, h⟩ => ⟨r, hc.mem_iff.1 hr, h⟩, fun ⟨r, hr, h⟩ => ⟨r, hc.mem_iff.2 hr, h⟩⟩
+  · rw [Bool.eq_iff_iff, C07_retry_all_is_and, C07_retry_all_is_and]
+    exact ⟨fun h r hr => h r (hc.mem_iff.2 hr), fun h r hr => h r (hc.mem_iff.1 hr)⟩
+  · rw [Bool.eq_iff_iff, C07_stop_any_is_or, C07_stop_any_is_or]
+    exact ⟨fun ⟨r, hr, h⟩ => ⟨r, hs.mem_iff.1 hr, h⟩, fun ⟨r, hr, h⟩ => ⟨r, hs.mem_iff.2 hr, h⟩⟩
+  · rw [Bool.eq_iff_iff, C07_stop_all_is_and, C07_stop_all_is_and]
+    exact ⟨fun h r hr => h r (hs.mem_iff.2 hr), fun h r hr => h r (hs.mem_iff.1 hr)⟩
+  · rw [waitCombine_eq_ratSum, waitCombine_eq_ratSum]; exact ratSum_perm (hw.map _)
+
+/-- Python's `sum([w1, …, wn])` over strategies (`__radd__`: `0 + w` is `w`): the int `0` for the empty list,
+otherwise a strategy whose delay is the sum of all of them -/
+theorem C07_builtin_sum (ws : List Wait) (a : Nat) (u : Rat) :
+    (pySum ws = none ↔ ws = []) ∧ ∀ f, pySum ws = some f → f a u = waitCombine ws a u := by
+  have key : ∀ (ws : List Wait) (g : Wait),
+      ∃ f, ws.foldl pySumStep (some g) = some f ∧ f a u = g a u + waitCombine ws a u := by
+    intro ws
+    induction ws with
+    | nil => intro g; exact ⟨g, rfl, by simp only [waitCombine_eq_ratSum, List.map_nil, ratSum_nil]; grind⟩
+    | cons w ws ih =>
+      intro g
+      obtain ⟨f, hf, hv⟩ := ih (waitCombine [g, w])
+      refine ⟨f, hf, ?_⟩
+      rw [hv]; simp only [waitCombine_eq_ratSum, List.map_cons, List.map_nil, ratSum_cons, ratSum_nil]; grind
+  cases ws with
+  | nil => simp [pySum]
+  | cons w ws =>
+    obtain ⟨f, hf, hv⟩ := key ws w
+    have hp : pySum (w :: ws) = some f := hf
+    refine ⟨by simp [hp], ?_⟩
+    intro f' hf'
+    rw [hp] at hf'; cases hf'
+    rw [hv]; simp only [waitCombine_eq_ratSum, List.map_cons, ratSum_cons]
+
+/-! ## bounds of every wait tree -/
+
+/-- every tree of built-in wait strategies with well-formed parameters (`WTree.wf`: non-negative, `min ≤ max`, a chain is
+not empty) returns, for all attempts and all jitter draws, a non-negative delay inside its documented interval: a leaf's own
+interval, the interval of the member a chain uses at that attempt, the sum of the intervals under `wait_combine` / `+` -/
+theorem C07_wait_tree_bounds (t : WTree) (a : Nat) (u : Rat) (hw : t.wf = true) (h0 : 0 ≤ u) (h1 : u ≤ 1) :
+    0 ≤ t.eval a u ∧ t.lo a ≤ t.eval a u ∧ t.eval a u ≤ t.hi a := by
+  have h := WTree.bounds t a u hw h0 h1
+  exact ⟨by grind, h.2.1, h.2.2⟩
+
+/-- the bounds are attained at the ends of the draw (so they cannot be tightened): `wait_random` gives `min` at `u = 0`
+and `max` at `u = 1`; `wait_random_exponential` gives `min` at `u = 0` and its exponential upper bound at `u = 1` -/
+theorem C07_bounds_attained (mn mx m b : Rat) (a : Nat) :
+    waitRandom mn mx a 0 = mn ∧ waitRandom mn mx a 1 = mx ∧
+    waitRandomExponential m b mx mn a 0 = mn ∧
+    waitRandomExponential m b mx mn a 1 = max (max 0 mn) (cappedExponential m b a mx) := by
+  unfold waitRandom waitRandomExponential; grind
+
+/-- a delay that a composed policy returns is the wait tree's delay, hence inside the tree's interval -/
+theorem C07_next_delay_bounded (p : PTree) (el : Rat) (k e : Nat) (u d : Rat) (hw : p.wait.wf = true)
+    (h0 : 0 ≤ u) (h1 : u ≤ 1) (h : p.eval.next el k e u = some d) :
+    d = p.wait.eval k u ∧ 0 ≤ d ∧ p.wait.lo k ≤ d ∧ d ≤ p.wait.hi k := by
+  have hd : d = p.wait.eval k u := by
+    obtain ⟨r, w, st⟩ := p
+    cases r with
+    | none =>
+      simp only [PTree.eval, Composed.next, Option.map_none] at h
+      cases hs : st.eval k el (w.eval k u) <;> simp [hs] at h
+      exact h.symm
+    | some c =>
+      simp only [PTree.eval, Composed.next, Option.map_some] at h
+      cases hc : c.eval e <;> cases hs : st.eval k el (w.eval k u) <;> simp [hc, hs] at h
+      exact h.symm
+  subst hd
+  exact ⟨rfl, C07_wait_tree_bounds p.wait k u hw h0 h1⟩
+
+/-- when exactly a composed policy retries: the condition tree (if any) holds of the error and the stop tree does not hold
+at (attempts, elapsed, the delay just computed) -/
+theorem C07_next_some_iff (p : PTree) (el : Rat) (k e : Nat) (u : Rat) :
+    (p.eval.next el k e u).isSome = true ↔
+      (∀ c, p.retry = some c → c.Holds e) ∧ ¬ p.stop.Holds k el (p.wait.eval k u) := by
+  have aux : (p.eval.next el k e u).isSome = true ↔
+      (∀ c, p.retry = some c → c.eval e = true) ∧ ¬ p.stop.eval k el (p.wait.eval k u) = true := by
+    obtain ⟨r, w, st⟩ := p
+    cases r with
+    | none =>
+      simp only [PTree.eval, Composed.next, Option.map_none]
+      by_cases hs : st.eval k el (w.eval k u) = true <;> simp [hs]
+    | some c =>
+      simp only [PTree.eval, Composed.next, Option.map_some]
+      by_cases hc : c.eval e = true <;> by_cases hs : st.eval k el (w.eval k u) = true <;> simp [hc, hs]
+  simpa only [C07_retry_tree_is_formula, C07_stop_tree_is_formula] using aux
+
+/-! ## determinism -/
+
+/-- trees built only from `wait_fixed`, `wait_exponential`, `wait_incrementing` do not depend on the seed at all -/
+theorem C07_jitter_free_ignores_seed (t : WTree) (a : Nat) (u u' : Rat) (h : t.jitterFree = true) :
+    t.eval a u = t.eval a u' := WTree.jitterFree_eval t a u u' h
+
+/-- growth: with `exp_base ≥ 1` and `multiplier ≥ 0` the exponential delay never decreases with the attempt number;
+`wait_incrementing` with `increment ≥ 0` likewise -/
+theorem C07_monotone_in_attempts (m b mx mn s i : Rat) (a a' : Nat) (u : Rat) (haa : a ≤ a') :
+    (0 ≤ m → 1 ≤ b → waitExponential m b mx mn a u ≤ waitExponential m b mx mn a' u) ∧
+    (0 ≤ i → waitIncrementing s i mx a u ≤ waitIncrementing s i mx a' u) := by
+  constructor
+  · intro hm hb
+    have hpow : ∀ n d : Nat, b ^ n ≤ b ^ (n + d) := by
+      intro n d
+      induction d with
+      | zero => exact Rat.le_refl
+      | succ d ih =>
+        have hnn : 0 ≤ b ^ (n + d) := pow_nonneg' b (by grind) _
+        have hstep : b ^ (n + d) * 1 ≤ b ^ (n + d) * b := Rat.mul_le_mul_of_nonneg_left hb hnn
+        rw [show n + (d + 1) = (n + d) + 1 from rfl, Rat.pow_succ]
+        grind
+    have hp : b ^ a ≤ b ^ a' := by
+      have := hpow a (a' - a)
+      rwa [show a + (a' - a) = a' by omega] at this
+    have hmul : m * b ^ a ≤ m * b ^ a' := Rat.mul_le_mul_of_nonneg_left hp hm
+    unfold waitExponential cappedExponential; grind
+  · intro hi
+    have hc : (a : Rat) ≤ (a' : Rat) := by exact_mod_cast haa
+    have hmul : i * (a : Rat) ≤ i * (a' : Rat) := Rat.mul_le_mul_of_nonneg_left hc hi
+    unfold waitIncrementing; grind
+
+/-! ## constructors -/
+
+/-- the constructor-level source facts the hand-written constructor models transcribe -/
+theorem C07_ctor_shape :
+    ret_retry_policy = "_ComposableRetryPolicy(retry=retry, wait=wait, stop=stop)" ∧
+    ret_ConstantDelayRetryPolicy = "_ComposableRetryPolicy(wait=wait_fixed(delay), stop=stop_after_attempt(maximum_attempts))" ∧
+    ret_ExponentialBackoffRetryPolicy = "_ComposableRetryPolicy(wait=wait, stop=stop_after_attempt(maximum_attempts))" ∧
+    ebpJitterWait = "wait = wait_random_exponential(multiplier=initial_delay, exp_base=multiplier, max=max_delay)" ∧
+    ebpPlainWait = "wait = wait_exponential(multiplier=initial_delay, exp_base=multiplier, max=max_delay)" ∧
+    ret_wait_full_jitter = "wait_random_exponential(multiplier=multiplier, exp_base=exp_base, max=max, min=min)" ∧
+    init_wait_none = "super().__init__(0)" ∧
+    init_ComposableRetryPolicy = "self.retry = retry ; self.wait = wait ; self.stop = stop" ∧
+    (dflt_retry_policy_retry, dflt_retry_policy_wait_ctor, dflt_retry_policy_stop_ctor) = ("None", "wait_fixed", "stop_after_attempt") ∧
+    (dflt_ComposableRetryPolicy_retry, dflt_ComposableRetryPolicy_wait_ctor, dflt_ComposableRetryPolicy_stop_ctor) = ("None", "wait_fixed", "stop_after_attempt") ∧
+    (dflt_ComposableRetryPolicy_wait_arg, dflt_ComposableRetryPolicy_stop_arg) = (dflt_retry_policy_wait_arg, dflt_retry_policy_stop_arg) ∧
+    -- every parameter is stored in the attribute of the same name that `__call__` reads
+    init_wait_fixed = "self.wait = _to_seconds(wait)" ∧
+    init_wait_exponential = "self.multiplier = float(multiplier) ; self.exp_base = float(exp_base) ; self.max = _to_seconds(max) ; self.min = _to_seconds(min)" ∧
+    init_wait_incrementing = "self.start = _to_seconds(start) ; self.increment = _to_seconds(increment) ; self.max = _to_seconds(max)" ∧
+    init_wait_random = "self.min = _to_seconds(min) ; self.max = _to_seconds(max)" ∧
+    init_wait_exponential_jitter = "self.initial = initial ; self.exp_base = exp_base ; self.max = max ; self.jitter = jitter" ∧
+    init_wait_random_exponential = init_wait_exponential ∧
+    init_wait_chain = "if not strategies: raise ValueError('wait_chain requires at least one strategy') ; self.strategies = strategies" ∧
+    init_wait_combine = "self.strategies = strategies" ∧
+    init_stop_after_attempt = "self.max_attempt_number = max_attempt_number" ∧
+    init_stop_after_delay = "self.max_delay = _to_seconds(max_delay)" ∧
+    init_stop_before_delay = "self.max_delay = _to_seconds(max_delay)" ∧
+    (init_stop_any, init_stop_all, init_retry_any, init_retry_all) =
+      ("self.stops = stops", "self.stops = stops", "self.retries = retries", "self.retries = retries") ∧
+    -- reflected operators keep the operand order; `0 + w` (the first step of `sum()`) is `w`
+    reflected_RetryConditionBase_rand = "return retry_all(other, self)" ∧
+    reflected_RetryConditionBase_ror = "return retry_any(other, self)" ∧
+    reflected_StopConditionBase_rand = "return stop_all(other, self)" ∧
+    reflected_StopConditionBase_ror = "return stop_any(other, self)" ∧
+    reflected_WaitStrategyBase_radd = "if other == 0: return self ; if callable(other): return self.__add__(cast(WaitStrategy, other)) ; return NotImplemented" ∧
+    "wait_none(wait_fixed)" ∈ classBases ∧ "retry_unless_exception_type(retry_if_not_exception_type)" ∈ classBases := by
+  refine ⟨rfl, rfl, rfl, rfl, rfl, rfl, rfl, rfl, rfl, rfl, rfl, rfl, rfl, rfl, rfl, rfl, rfl, rfl, rfl, rfl, rfl, rfl, rfl, rfl, rfl, rfl, rfl, rfl, by decide, by decide⟩
+
+/-- the defaults of every constructor parameter are the documented (tenacity-compatible) ones -/
+theorem C07_documented_defaults :
+    (dflt_wait_exponential_multiplier, dflt_wait_exponential_exp_base, dflt_wait_exponential_max, dflt_wait_exponential_min) = (1, 2, 60, 0) ∧
+    (dflt_wait_incrementing_start, dflt_wait_incrementing_increment, dflt_wait_incrementing_max) = (0, 100, none) ∧
+    (dflt_wait_random_min, dflt_wait_random_max) = (0, 1) ∧
+    (dflt_wait_exponential_jitter_initial, dflt_wait_exponential_jitter_exp_base, dflt_wait_exponential_jitter_max,
+      dflt_wait_exponential_jitter_jitter) = (1, 2, 60, 1) ∧
+    (dflt_wait_random_exponential_multiplier, dflt_wait_random_exponential_exp_base, dflt_wait_random_exponential_max,
+      dflt_wait_random_exponential_min) = (1, 2, 60, 0) ∧
+    (dflt_wait_full_jitter_multiplier, dflt_wait_full_jitter_exp_base, dflt_wait_full_jitter_max, dflt_wait_full_jitter_min) = (1, 2, 60, 0) ∧
+    (dflt_ConstantDelayRetryPolicy_maximum_attempts, dflt_ConstantDelayRetryPolicy_delay) = (3, 5) ∧
+    (dflt_ExponentialBackoffRetryPolicy_maximum_attempts, dflt_ExponentialBackoffRetryPolicy_initial_delay,
+      dflt_ExponentialBackoffRetryPolicy_multiplier, dflt_ExponentialBackoffRetryPolicy_max_delay,
+      dflt_ExponentialBackoffRetryPolicy_jitter) = (5, 1, 2, 60, some true) := by
+  decide
+
+/-- `retry_policy()` with no arguments: every exception, a fixed delay, a fixed attempt budget (as documented: 5 s, 3 attempts) -/
+theorem C07_default_policy (el : Rat) (k e : Nat) (u : Rat) :
+    (mkPolicy none none none).eval.next el k e u =
+      (if (k : Rat) ≥ dflt_retry_policy_stop_arg then none else some dflt_retry_policy_wait_arg) ∧
+    dflt_retry_policy_wait_arg = 5 ∧ dflt_retry_policy_stop_arg = 3 := by
+  refine ⟨?_, by decide, by decide⟩
+  simp only [mkPolicy, PTree.eval, Composed.next, Option.getD_none, Option.map_none, WTree.eval, RSTree.eval, WLeaf.eval,
+    SLeaf.eval, waitFixed, stopAfterAttempt]
+  split <;> simp_all
+
+/-- `ConstantDelayRetryPolicy(n, d)`: delay `d` while fewer than `n` failures, for every exception, elapsed time and seed -/
+theorem C07_constant_delay_policy (n d : Option Rat) (el : Rat) (k e : Nat) (u : Rat) :
+    (mkConstantDelay n d).eval.next el k e u =
+      (if (k : Rat) ≥ n.getD dflt_ConstantDelayRetryPolicy_maximum_attempts then none
+       else some (d.getD dflt_ConstantDelayRetryPolicy_delay)) := by
+  simp only [mkConstantDelay, PTree.eval, Composed.next, Option.map_none, WTree.eval, RSTree.eval, WLeaf.eval,
+    SLeaf.eval, waitFixed, stopAfterAttempt]
+  split <;> simp_all
+
+/-- `ExponentialBackoffRetryPolicy(...)`, jittered or not: a returned delay is non-negative and at most `max(0, max_delay)`;
+nothing is returned from `maximum_attempts` failures on -/
+theorem C07_exp_backoff_policy (n i m mx : Option Rat) (j : Option Bool) (el : Rat) (k e : Nat) (u : Rat)
+    (h0 : 0 ≤ u) (h1 : u ≤ 1) :
+    (∀ d, (mkExpBackoff n i m mx j).eval.next el k e u = some d →
+      0 ≤ d ∧ d ≤ max 0 (mx.getD dflt_ExponentialBackoffRetryPolicy_max_delay)) ∧
+    ((k : Rat) ≥ n.getD dflt_ExponentialBackoffRetryPolicy_maximum_attempts →
+      (mkExpBackoff n i m mx j).eval.next el k e u = none) := by
+  constructor
+  · intro d hd
+    have hmin0 : (0 : Rat) ≤ dflt_wait_random_exponential_min := by decide
+    have hwf : (mkExpBackoff n i m mx j).wait.wf = true := by
+      cases hjv : j.getD (dflt_ExponentialBackoffRetryPolicy_jitter.getD true) <;>
+        simp [mkExpBackoff, hjv, WTree.wf, WLeaf.wf, hmin0]
+    have hb := C07_next_delay_bounded _ el k e u d hwf h0 h1 hd
+    refine ⟨hb.2.1, ?_⟩
+    have hhi := hb.2.2.2
+    have hmin1 : dflt_wait_random_exponential_min = 0 := by decide
+    have hmin2 : dflt_wait_exponential_min = 0 := by decide
+    cases hjv : j.getD (dflt_ExponentialBackoffRetryPolicy_jitter.getD true) <;>
+      simp only [mkExpBackoff, hjv, WTree.hi, WLeaf.hi, hmin1, hmin2, if_true, if_false, Bool.false_eq_true] at hhi <;> grind
+  · intro hk
+    simp only [mkExpBackoff, PTree.eval, Composed.next, Option.map_none, RSTree.eval, SLeaf.eval, stopAfterAttempt]
+    simp [hk]
+
+/-- `wait_full_jitter` is `wait_random_exponential` (same defaults, arguments passed on by name); `wait_none()` waits 0 -/
+theorem C07_aliases (m b mx mn : Option Rat) (a : Nat) (u : Rat) :
+    (mkFullJitter m b mx mn).eval a u = (mkRandomExp m b mx mn).eval a u ∧ mkWaitNone.eval a u = 0 := by
+  constructor
+  · have h : (dflt_wait_full_jitter_multiplier, dflt_wait_full_jitter_exp_base, dflt_wait_full_jitter_max, dflt_wait_full_jitter_min) =
+        (dflt_wait_random_exponential_multiplier, dflt_wait_random_exponential_exp_base, dflt_wait_random_exponential_max,
+          dflt_wait_random_exponential_min) := by decide
+    simp only [Prod.mk.injEq] at h
+    simp only [mkFullJitter, mkRandomExp, h.1, h.2.1, h.2.2.1, h.2.2.2]
+  · rfl
+
+/-! Non-vacuity of the nested part -/
+-- (a | (b & c)) with a mixed tree: holds of exception 3 through the `all` branch
+example : (RCTree.any [.leaf (.excIn [1]), .all [.leaf (.excNotIn [2]), .leaf .always]]).eval 3 = true := by decide
+example : (RCTree.any [.leaf (.excIn [1]), .all [.leaf (.excNotIn [2]), .leaf .always]]).eval 2 = false := by decide
+example : (RSTree.all [.leaf (.afterAttempt 2), .any [.leaf .never, .leaf (.afterDelay 5)]]).eval 3 7 0 = true := by decide
+-- a well-formed three-level wait tree
+example : (WTree.combine [.leaf (.fixed 1), .chain [.leaf (.random 0 1), .combine [.leaf (.fixed 2), .leaf (.random 1 3)]]]).wf = true := by decide
+example : (WTree.combine [.leaf (.fixed 1), .chain [.leaf (.random 0 1), .leaf (.fixed 2)]]).jitterFree = false := by decide
+example : (WTree.combine [.leaf (.fixed 1), .chain [.leaf (.fixed 3), .leaf (.fixed 2)]]).jitterFree = true := by decide
+example : [retryAlways, retryNever].Perm [retryNever, retryAlways] := List.Perm.swap _ _ _
+example : (mkConstantDelay none none).wait.wf = true := by decide
